@@ -66,8 +66,8 @@ func jobsFor(prop, tier string) []Job {
 		}
 		if thorough {
 			js = append(js, mk("c02-n3-2cycles-ib2", params("N", 3, "CYCLES", 2, "KEYS", 2, "IBMAX", 2), true),
-				mk("c02-n4-1cycle-drain", params("N", 4, "CYCLES", 1, "KEYS", 3, "DRAIN", 1, "L0MAX", 2), false),
-				mk("c02-n3-2cycles-ops2", params("N", 3, "CYCLES", 2, "KEYS", 2, "OPS2", 1, "K0", 2), false))
+				mk("c02-n4-1cycle-drain", params("N", 4, "CYCLES", 1, "KEYS", 2, "DRAIN", 1, "IBMAX", 0), false),
+				mk("c02-n2-2cycles-ops2", params("N", 2, "CYCLES", 2, "KEYS", 2, "OPS2", 1, "K0", 2), false))
 		}
 	case "C03", "C04", "C14":
 		mk := func(name string, p map[string]int, crashes int, tears bool, eager bool, sched int) Job {
@@ -344,7 +344,7 @@ func jobsFor(prop, tier string) []Job {
 			return Job{Name: name, Pkg: pkg, Fn: fn, Inits: true, Samples: 3, Params: p,
 				Bounds:  map[string]any{"entries": p["N"], "key_lengths": "digits of KL", "value_lengths": "digits of VL", "content": "all bytes, tombstone and 64-bit version symbolic", "params": p},
 				Assumes: []string{aS2, "encoding/binary.Write/Read = exact little-endian byte model", "sync.Pool returns a previously Put buffer (single-P order: private slot, then shared LIFO)", "frugal/thrift-binary model of types.Entry (WAL harness)", aFS},
-				Outside: []string{"the s2 bit format for symbolic content", "more entries / longer keys than the listed configurations", "unsynchronised simultaneous use of one buffer (data races are C12)"}}
+				Outside: []string{"the s2 bit format for symbolic content", "more entries / longer keys than the listed configurations", "concurrent encoders beyond the two-goroutine job c11-conc-* (engine-level concurrency is C12's harness)"}}
 		}
 		js = []Job{
 			mk("c11-data-n2", "table", "VH_C11_Data", params("N", 2, "KL", 21, "VL", 10)),
@@ -356,6 +356,23 @@ func jobsFor(prop, tier string) []Job {
 			mk("c11-long-val-65535", "table", "VH_C11_Long", params("LEN", 65535, "WHICH", 0)),
 			mk("c11-long-val-65536", "table", "VH_C11_Long", params("LEN", 65536, "WHICH", 0)),
 			mk("c11-long-key-65536", "table", "VH_C11_Long", params("LEN", 65536, "WHICH", 1)),
+		}
+		{
+			// two goroutines encoding at the same time: race monitor, schedules, round trips
+			j := mk("c11-conc-2encoders-dev1", "table", "VH_C11_Conc", params("N", 2, "KL", 21, "VL", 10, "MORE", 1))
+			j.Sched, j.MaxDev, j.Races, j.Replay = true, 1, true, "gated"
+			j.PoolPreempt = true
+			j.Bounds["goroutines"] = "2 encoders (Data.Encode/Decode, Index.Encode, Meta.Encode), every pick at blocking points plus 1 preemption (also after sync.Pool Get/Put)"
+			j.Assumes = append(j.Assumes, "Go memory model as in C12's runtime model; an s2.Writer's state is one race-monitor location (its methods are writes to it)")
+			js = append(js, j)
+			if thorough {
+				j2 := mk("c11-conc-2encoders-dev2", "table", "VH_C11_Conc", params("N", 2, "KL", 21, "VL", 11, "MORE", 1))
+				j2.Sched, j2.MaxDev, j2.Races, j2.Replay = true, 2, true, "gated"
+				j2.PoolPreempt = true
+				j2.Bounds["goroutines"] = "2 encoders, 2 preemptions"
+				j2.Assumes = j.Assumes
+				js = append(js, j2)
+			}
 		}
 		if thorough {
 			js = append(js,
